@@ -6,7 +6,7 @@
        func fd(val k) is if k = 0 then return 7 else return fd(k - 1)
        proc cd(val n, array b) is var t;
        { t := n + 48; put(t, 0); g := g + n; b[n] := t; if n = 0 then skip else cd(n - 1, b) }
-       proc main() is { g := 0; cd(fd(0) - 4, a); g := fd(g) + g; g := g + a[2]; ch := get(0) + 1; put(ch, 0) }
+       proc main() is { g := 0; cd(fd(0) - 4, a); g := fd(g) + g; g := g + a[2]; ch := get(0) + 1; put((fd(0) + ch) - 7, 0) }
    (the global array a is passed by address to the array formal b, which cd assigns through and hands on to its
    recursive call; at the end one byte is read from the console and echoed).  Its image is laid out here as xcmp does (BR _start; DATA 199993; g; a's word; _start: LDAP _exit; BR main; _exit: ..; the
    procedures), from the model's LOWERED code (prologue ++ cs body ++ exit label ++ epilogue, before the
@@ -33,7 +33,7 @@ Definition demo_src : program :=
                 {| is_func := false; pname := "main"; formals := []; locals := [];
                    body := SSeq [SAssign "g" (ENum 0); SCall "cd" [EBin Minus (ECall "fd" [ENum 0]) (ENum 4); EVar "a"]; SAssign "g" (EBin Plus (ECall "fd" [EVar "g"]) (EVar "g"));
                    SAssign "g" (EBin Plus (EVar "g") (ESub "a" (ENum 2)));
-                   SAssign "ch" (EBin Plus (ECall "get" [ENum 0]) (ENum 1)); SCall "put" [EVar "ch"; ENum 0]] |} ] |}.
+                   SAssign "ch" (EBin Plus (ECall "get" [ENum 0]) (ENum 1)); SCall "put" [EBin Minus (EBin Plus (ECall "fd" [ENum 0]) (EVar "ch")) (ENum 7); ENum 0]] |} ] |}.
 
 Definition p_fd : proc :=
   {| is_func := true; pname := "fd"; formals := [FVal "k"]; locals := [];
@@ -47,7 +47,7 @@ Definition p_main : proc :=
   {| is_func := false; pname := "main"; formals := []; locals := [];
      body := SSeq [SAssign "g" (ENum 0); SCall "cd" [EBin Minus (ECall "fd" [ENum 0]) (ENum 4); EVar "a"]; SAssign "g" (EBin Plus (ECall "fd" [EVar "g"]) (EVar "g"));
                    SAssign "g" (EBin Plus (EVar "g") (ESub "a" (ENum 2)));
-                   SAssign "ch" (EBin Plus (ESys 2 [ENum 0]) (ENum 1)); SSys 1 [EVar "ch"; ENum 0]] |}.
+                   SAssign "ch" (EBin Plus (ESys 2 [ENum 0]) (ENum 1)); SSys 1 [EBin Minus (EBin Plus (ECall "fd" [ENum 0]) (EVar "ch")) (ENum 7); ENum 0]] |}.
 Definition demo : program :=
   {| globals := [DVal "put" (ENum 1); DVal "get" (ENum 2); DVar "g"; DArray "a" (ENum 4); DVar "ch"]; procs := [p_fd; p_cd; p_main] |}.
 
@@ -105,7 +105,7 @@ proc main() is
   g := fd(g) + g;
   g := g + a[2];
   ch := get(0) + 1;
-  put(ch, 0)
+  put((fd(0) + ch) - 7, 0)
 }
 X-SOURCE-END *)
 Example demo_cproc_cd : cproc demo_pinfo demo_gaddr demo_aaddr demo_pool p_cd 6 4 = Some
@@ -121,8 +121,9 @@ Example demo_cproc_main : cproc demo_pinfo demo_gaddr demo_aaddr demo_pool p_mai
   [LDBM 1; STAI 0; LDAC (-5); ADD; STAM 1; LDAC 0; STAM 2; LDAC 0; LDBM 1; STAI 2; LDAP 1; BR 102; LABEL 1; LDAM 1;
    LDAI 1; LDBC 4; SUB; LDBM 1; STAI 4; LDBM 1; STAI 1; LDAM 3; LDBM 1; STAI 2; LDAP 2; BR 100; LABEL 2; LDAM 2; LDBM
    1; STAI 2; LDAP 3; BR 102; LABEL 3; LDAM 1; LDAI 1; LDBM 2; ADD; STAM 2; LDAM 3; LDAI 2; LDBM 1; STAI 4; LDAM 2;
-   LDBM 1; LDBI 4; ADD; STAM 2; LDAC 0; LDBM 1; STAI 2; LDAC 2; SVC; LDAM 1; LDAI 1; LDBC 1; ADD; STAM 4; LDAM 4; LDBM
-   1; STAI 2; LDAC 0; LDBM 1; STAI 3; LDAC 1; SVC; LDAM 1; LDAI 1; LABEL 0; LDBM 1; LDAC 5; ADD; STAM 1; LDBI 5; BRB].
+   LDBM 1; LDBI 4; ADD; STAM 2; LDAC 0; LDBM 1; STAI 2; LDAC 2; SVC; LDAM 1; LDAI 1; LDBC 1; ADD; STAM 4; LDAC 0; LDBM
+   1; STAI 2; LDAP 4; BR 102; LABEL 4; LDAM 1; LDAI 1; LDBM 4; ADD; LDBC 7; SUB; LDBM 1; STAI 4; LDBM 1; STAI 2; LDAC
+   0; LDBM 1; STAI 3; LDAC 1; SVC; LDAM 1; LDAI 1; LABEL 0; LDBM 1; LDAC 5; ADD; STAM 1; LDBI 5; BRB].
 Proof. vm_compute. reflexivity. Qed.
 Example demo_cproc_fd : cproc demo_pinfo demo_gaddr demo_aaddr demo_pool p_fd 3 3 = Some
   (* XCMP-LISTING fd *)
@@ -148,11 +149,12 @@ Definition demo_bytes : list Z :=
    145; 49; 161; 157; 1; 103; 65; 210; 17; 129; 1; 104; 17; 130; 82; 252; 146; 17; 54; 209; 33; 118; 208; 17; 128;
    255; 59; 209; 33; 48; 34; 48; 17; 130; 82; 248; 155; 1; 97; 68; 210; 17; 132; 1; 100; 17; 129; 3; 17; 130; 82; 249;
    158; 2; 17; 130; 82; 247; 149; 1; 97; 18; 209; 34; 3; 98; 17; 132; 2; 17; 116; 209; 34; 48; 17; 130; 50; 211; 1;
-   97; 65; 209; 36; 4; 17; 130; 48; 17; 131; 49; 211; 1; 97; 17; 53; 209; 33; 117; 208; 0; 0].
+   97; 65; 209; 36; 48; 17; 130; 82; 245; 151; 1; 97; 20; 209; 71; 210; 17; 132; 1; 100; 17; 130; 48; 17; 131; 49;
+   211; 1; 97; 17; 53; 209; 33; 117; 208; 0; 0; 0].
 Definition demo_labs : list (label * Z) :=
-  [(0, 128); (1, 115); (2, 128); (3, 112); (4, 113); (5, 128); (20, 204); (21, 148); (22, 164); (23, 170); (40, 59);
-   (41, 47); (42, 59); (43, 42); (44, 43); (45, 56); (100, 66); (101, 134); (102, 31)].
-Definition demo_label_names : list label := [0; 1; 2; 3; 4; 5; 20; 21; 22; 23; 40; 41; 42; 43; 44; 45; 100; 101; 102].
+  [(0, 128); (1, 115); (2, 128); (3, 112); (4, 113); (5, 128); (20, 219); (21, 148); (22, 164); (23, 170); (24, 200);
+   (40, 59); (41, 47); (42, 59); (43, 42); (44, 43); (45, 56); (100, 66); (101, 134); (102, 31)].
+Definition demo_label_names : list label := [0; 1; 2; 3; 4; 5; 20; 21; 22; 23; 24; 40; 41; 42; 43; 44; 45; 100; 101; 102].
 (* the assembler model lays the directives out as these bytes, with the labels there *)
 Lemma demo_assembled : exists o, assemble_directives demo_dirs [] = Ok o /\ ao_image o = demo_bytes /\
   map (fun l => (l, lab_of (ao_layout o) l)) demo_label_names = demo_labs.
@@ -163,7 +165,7 @@ Fixpoint lookup (l : label) (t : list (label * Z)) : Z :=
 Definition demo_lab (l : label) : Z := lookup l demo_labs.
 Definition demo_m0 : WMap.t := mem_of demo_bytes.
 Definition demo_img : WMap.t := bytes_map demo_bytes.
-Definition demo_P (a : Z) : Prop := 6 <= a < 53.      (* the code words *)
+Definition demo_P (a : Z) : Prop := 6 <= a < 57.      (* the code words *)
 Definition demo_stack_lo : Z := 1000.
 Definition demo_stack_hi : Z := 199996.   (* the root frame ends here; the array's cells follow *)
 Definition demo_maxframe : Z := 6.
@@ -174,7 +176,7 @@ Lemma demo_image_runs : exists s, Isa.run 700 (boot (words_of_bytes demo_bytes))
 Proof. vm_compute. eexists. reflexivity. Qed.
 
 (* ---- the hypotheses of XCodegenCall.Prog *)
-Lemma demo_holds lo n : bytes_ok demo_m0 demo_img lo n = true -> 0 <= lo -> 24 <= lo -> lo + Z.of_nat n <= 212 ->
+Lemma demo_holds lo n : bytes_ok demo_m0 demo_img lo n = true -> 0 <= lo -> 24 <= lo -> lo + Z.of_nat n <= 228 ->
   forall m, C demo_P demo_m0 m -> holds m demo_img lo (lo + Z.of_nat n).
 Proof.
   intros Hb H0 Hlo Hhi. apply bytes_ok_holds; [exact Hb | exact H0|].
@@ -196,11 +198,11 @@ Proof.
   change 134 with (66 + Z.of_nat 68). apply demo_holds; [vm_compute; reflexivity | lia | lia | cbn; lia].
 Qed.
 Lemma demo_code_main : exists bc n', body_code p_main L_main = Some (bc, n') /\
-  code_at (C demo_P demo_m0) demo_lab 134 (pro 5 ++ bc ++ epi 20 5) 210.
+  code_at (C demo_P demo_m0) demo_lab 134 (pro 5 ++ bc ++ epi 20 5) 225.
 Proof.
   eexists. eexists. split; [vm_compute; reflexivity|].
-  apply (code_chk_sound (C demo_P demo_m0) _ demo_lab demo_img 134 210); [vm_compute; reflexivity | lia | unfold W; lia|].
-  change 210 with (134 + Z.of_nat 76). apply demo_holds; [vm_compute; reflexivity | lia | lia | cbn; lia].
+  apply (code_chk_sound (C demo_P demo_m0) _ demo_lab demo_img 134 225); [vm_compute; reflexivity | lia | unfold W; lia|].
+  change 225 with (134 + Z.of_nat 91). apply demo_holds; [vm_compute; reflexivity | lia | lia | cbn; lia].
 Qed.
 
 Lemma demo_simple_cd : simple_proc demo_gaddr demo_aaddr p_cd ["n"; "b"] ["t"].
@@ -231,7 +233,7 @@ Proof.
     + apply String.eqb_eq in E2. subst p. inversion Hp; subst pi. cbn [pf_isfunc pf_entry].
       split; [vm_compute; discriminate|].
       destruct demo_code_main as (bc & n' & Hb & Hc).
-      exists p_main, [], [], L_main, bc, n', 210. split; [reflexivity|]. split; [reflexivity|].
+      exists p_main, [], [], L_main, bc, n', 225. split; [reflexivity|]. split; [reflexivity|].
       split; [exact demo_simple_main|]. split; [vm_compute; repeat split; discriminate|]. split; [exact Hb|]. split; [exact Hc | reflexivity].
     + apply String.eqb_eq in E3. subst p. inversion Hp; subst pi. cbn [pf_isfunc pf_entry].
       split; [vm_compute; discriminate|].
@@ -311,17 +313,17 @@ Proof.
   - unfold Dq_of, demo_stack_lo, demo_maxframe, demo_sp. cbn. lia.
 Qed.
 
-(* main's body sits at bytes [140, 204) of the image *)
-Lemma demo_body_main : exists bc n', body_code p_main L_main = Some (bc, n') /\ code_at (C demo_P demo_m0) demo_lab 140 bc 204.
+(* main's body sits at bytes [140, 219) of the image *)
+Lemma demo_body_main : exists bc n', body_code p_main L_main = Some (bc, n') /\ code_at (C demo_P demo_m0) demo_lab 140 bc 219.
 Proof.
   eexists. eexists. split; [vm_compute; reflexivity|].
-  apply (code_chk_sound (C demo_P demo_m0) _ demo_lab demo_img 140 204); [vm_compute; reflexivity | lia | unfold W; lia|].
-  change 204 with (140 + Z.of_nat 64). apply demo_holds; [vm_compute; reflexivity | lia | lia | cbn; lia].
+  apply (code_chk_sound (C demo_P demo_m0) _ demo_lab demo_img 140 219); [vm_compute; reflexivity | lia | unfold W; lia|].
+  change 219 with (140 + Z.of_nat 79). apply demo_holds; [vm_compute; reflexivity | lia | lia | cbn; lia].
 Qed.
 
 (* The theorem applied: from main's frame (stack pointer word = 199988, g and ch not yet assigned, nothing in the
    array, the console holding the bytes 66 67), the ISA runs the code of main's body
-   `g := 0; cd(fd(0) - 4, a); g := fd(g) + g; g := g + a[2]; ch := get(0) + 1; put(ch, 0)` -- four activations of the procedure cd, each
+   `g := 0; cd(fd(0) - 4, a); g := fd(g) + g; g := g + a[2]; ch := get(0) + 1; put((fd(0) + ch) - 7, 0)` -- four activations of the procedure cd, each
    with prologue, output, an assignment to an element of the global array through the array formal b (whose frame word
    holds the address of a's cells), recursive call handing b on, and epilogue, then seven activations of the function
    fd, each returning its result through the caller's outgoing word, then a read of the array, then the system call
@@ -330,7 +332,7 @@ Qed.
    is 199988 again, g's word holds 63 (= fd(6) + 6 + a[2] = 7 + 6 + 50: the call is the left operand of +, the right one
    the variable g), ch's word 67 (the byte read + 1: get as a left operand) and the cell of a[2] holds 50. *)
 Theorem demo_main_body_runs : forall a b inp, console inp = [66; 67] -> exists evs a' b' m',
-  runs inp (mk 140 a b 0 demo_m) evs {| console := [67]; files := files inp |} (mk 204 a' b' 0 m') /\
+  runs inp (mk 140 a b 0 demo_m) evs {| console := [67]; files := files inp |} (mk 219 a' b' 0 m') /\
   writes evs = [(0, 51); (0, 50); (0, 49); (0, 48); (0, 67)] /\
   rd m' 1 = 199988 /\ rd m' 2 = 63 /\ rd m' 4 = 67 /\ rd m' 199998 = 50.
 Proof.
@@ -350,7 +352,7 @@ Proof.
   destruct (stmt_normal demo_pinfo (Fr_of demo_stack_lo demo_sp) (Dq_of demo_ge demo_stack_lo demo_maxframe demo_sp)
               (frame_venv demo_gaddr p_main (pl_size L_main)) (frame_aenv demo_aaddr p_main (pl_size L_main)) (garr_of demo_aaddr) demo_abase demo_alen demo_pool
               (pl_size L_main) (pl_nslots L_main) (first_temp p_main) (pl_og L_main) (pl_exit L_main) demo_ge demo_P demo_m0 demo_lab demo_sp
-              100%nat Hok (body p_main) (pl_n0 L_main) bc n' demo_st0 st' Hb He demo_m 140 204 a b inp
+              100%nat Hok (body p_main) (pl_n0 L_main) bc n' demo_st0 st' Hb He demo_m 140 219 a b inp
               demo_rel Hcon Hc ltac:(lia) ltac:(unfold W; lia) Hx)
     as (outs & a' & b' & m' & R & HR' & Hpost & _).
   exists outs, a', b', m'.
@@ -381,7 +383,8 @@ Example demo_model_image_opt : model_compile demo_frames true demo = Some
    26803794; 2215743585; 1931596083; 4286583248; 1730269498; 298926307; 813830533; 3543237393; 285368577; 19059063;
    3514306919; 1694598161; 25195537; 2435883623; 27107633; 298991975; 292028801; 2516341378; 567358993; 2148651126;
    567360511; 288367152; 2683851394; 3527696641; 2165408785; 1384255747; 285381626; 2616676994; 3507642625; 291636002;
-   1947271812; 288367313; 30618242; 617693537; 813830404; 3543237393; 890331393; 3497337297].
+   1947271812; 288367313; 30618242; 617693537; 1384255792; 1627495925; 3527921940; 2182186001; 830673200; 291570131;
+   1965150517; 208].
 Proof. vm_compute. reflexivity. Qed.
 
 (* opt = false: the validated image of the lowered code, the one program_correct speaks of *)
@@ -390,8 +393,8 @@ Definition demo_image : list Z :=
    2550026882; 294674689; 567358340; 2148651123; 567360255; 1088644865; 25498065; 813830501; 3543237393; 285368577;
    19059063; 3514306919; 1694598161; 25195537; 2435883623; 27107633; 298991975; 292028801; 2466009730; 567358993;
    2148651126; 567360511; 288367152; 2616742530; 3527696641; 1677820945; 285442321; 2667139714; 1384255746;
-   1627493879; 52613394; 42209634; 584152081; 847384880; 1096876499; 285484241; 2198941826; 1627509553; 567358737;
-   53365].
+   1627493879; 52613394; 42209634; 584152081; 847384880; 1096876499; 288367825; 2549437058; 3507773697; 2215760455;
+   2182177793; 830673200; 291570131; 1965150517; 208].
 Lemma demo_model_image : model_compile demo_frames false demo = Some demo_image.
 Proof. vm_compute. reflexivity. Qed.
 
